@@ -506,6 +506,81 @@ def eq_cases(base_id=500000):
     return cases
 
 
+def anonflow_cases(base_id=650000):
+    """Directed family: ANONYMOUS record types ({f0: u8, f1: u32}, written structurally, never declared) meeting
+    literals that list the fields in another order.  Shapes: field type mixtures of 1..4 fields whose layout depends on
+    the order (different sizes / alignments); every permutation of the literal's field order (all for <= 3 fields,
+    rotations and the reversal for 4); flows: the literal is an argument for a parameter of the type, the result of a
+    function declared to return it, the initialiser of an annotated let, or first bound by an UN-annotated let and only
+    then given to the parameter / the annotated let (its type is fixed after the fact).  Every field is emitted to the
+    host log by name after the flow; expected values come from RotoSem (records are maps from field names to values:
+    the order in which a literal lists them never matters)."""
+    import itertools
+    cases = []
+    cid = base_id
+    shapes = [["u8", "u32"], ["u32", "u8"], ["u64", "u8", "u16"], ["u8", "u64", "u8"], ["u16", "u8", "u32"], ["bool", "u64"],
+              ["u8", "u16", "u32", "u64"], ["u64", "u8", "u32", "u8"], ["str", "u8"], ["u8", "str", "u32"], ["u32"]]
+    for si, shape in enumerate(shapes):
+        n = len(shape)
+        an = "An%d" % si
+        adecl = {"k": "record", "n": an, "ps": [], "fs": [["f%d" % i, shape[i]] for i in range(n)], "anon": True}
+        aty = ["named", an, []]
+        if n <= 3:
+            perms = list(itertools.permutations(range(n)))
+        else:
+            perms = [tuple(range(n)), tuple(reversed(range(n)))] + [tuple((i + k) % n for i in range(n)) for k in range(1, n)] + [(1, 0, 3, 2)]
+        last = n - 1
+        scal = [i for i in range(n) if shape[i] != "str"]
+        res_i = scal[-1]
+        for perm in perms:
+            for form in ("param", "param_let", "ret", "let", "let_let"):
+                def lit(vals):
+                    return {"k": "rec", "name": "", "fs": [["f%d" % i, vals[i]] for i in perm]}
+                ins = [A.host("in", shape[i], i, []) for i in range(n)]
+                emits = lambda src: [A.host("emit", shape[i], 50 + i, [{"k": "field", "e": src, "f": "f%d" % i}]) for i in range(n)]
+                fns = {}
+                if form in ("param", "param_let"):
+                    fns["obs"] = {"ps": ["r"], "pts": [aty], "rt": shape[res_i],
+                                  "b": A.block(emits(A.var("r")), {"k": "field", "e": A.var("r"), "f": "f%d" % res_i})}
+                    if form == "param":
+                        ss = []
+                        call = {"k": "call", "f": "obs", "args": [lit(ins)]}
+                    else:
+                        ss = [dict(A.let("x", aty, lit(ins)), ann=False)]
+                        call = {"k": "call", "f": "obs", "args": [A.var("x")]}
+                    res = A.binop("eq", shape[res_i], call, A.host("in", shape[res_i], n, []))
+                elif form == "ret":
+                    ps = ["a%d" % i for i in range(n)]
+                    fns["mk"] = {"ps": ps, "pts": list(shape), "rt": aty, "b": A.block([], lit([A.var(p_) for p_ in ps]))}
+                    ss = [dict(A.let("z", aty, {"k": "call", "f": "mk", "args": ins}), ann=False)] + emits(A.var("z"))
+                    res = A.binop("eq", shape[res_i], {"k": "field", "e": A.var("z"), "f": "f%d" % res_i}, A.host("in", shape[res_i], n, []))
+                else:
+                    if form == "let":
+                        ss = [A.let("v", aty, lit(ins))]
+                    else:
+                        ss = [dict(A.let("x", aty, lit(ins)), ann=False), A.let("v", aty, A.var("x"))]
+                    ss += emits(A.var("v"))
+                    res = A.binop("eq", shape[res_i], {"k": "field", "e": A.var("v"), "f": "f%d" % res_i}, A.host("in", shape[res_i], n, []))
+                fns["main"] = {"ps": [], "pts": [], "rt": "bool", "b": A.block(ss, res)}
+                prog = {"types": [adecl], "fns": fns}
+                runs = []
+                for k in range(2):
+                    vals = []
+                    for i in range(n):
+                        t = shape[i]
+                        if t == "str":
+                            vals.append({"ty": t, "v": A.str_val("s%d%d" % (i, k))})
+                        elif t == "bool":
+                            vals.append({"ty": t, "v": (i + k) % 2 == 0})
+                        else:
+                            vals.append({"ty": t, "v": A.int_bytes(t, (A.ty_max(t) - 3 * i - k) if (i + k) % 2 == 0 else (17 * (i + 1) + k))})
+                    runs.append(vals + [vals[res_i] if k == 0 else ({"ty": shape[res_i], "v": False} if shape[res_i] == "bool"
+                                                                   else {"ty": shape[res_i], "v": A.int_bytes(shape[res_i], 5)})])
+                cid += 1
+                cases.append(_case(cid, prog, "bool", runs))
+    return cases
+
+
 def aggcopy_cases(base_id=600000):
     """Directed family: aggregates of every size 1..48 bytes that are moved as a whole (bound by `let`, passed to
     a function, returned through the return slot, stored as a field of a bigger record, assigned over an existing
